@@ -455,9 +455,73 @@ func c04Heads(r *Run) {
 	}
 }
 
+type c04User struct {
+	Name   string
+	Active bool
+}
+type c04Group struct {
+	Active bool
+	Name   string
+	Size   int
+}
+
+// one loop variable name meeting values of different Go types - within one list, in nested rows, and in two loops over
+// different struct types on one engine: every item is bound as it is, and an expression on it sees THAT item
+func c04MixedItems(r *Run) {
+	rr := r.Rng
+	pool := []any{1, "one", 2, 2.5, nil, true, int64(1), "1", uint8(3), false, []any{1}, map[string]any{"k": 1}}
+	show := func(v any) string {
+		if v == nil {
+			return ""
+		}
+		return fmt.Sprint(v)
+	}
+	n := 60
+	if r.Thorough() {
+		n = 1500
+	}
+	for c := 0; c < n; c++ {
+		eng := vuego.New()
+		for round := 0; round < 2; round++ {
+			var xs []any
+			var want []string
+			for i, k := 0, 2+rr.Intn(5); i < k; i++ {
+				v := Pick(rr, pool[:10])
+				xs = append(xs, v)
+				want = append(want, fmt.Sprintf("%d=%s", i, show(v)))
+			}
+			users := []c04User{{"ann", true}, {"bob", false}, {"cy", true}}
+			groups := []c04Group{{false, "ops", 3}, {true, "dev", 5}}
+			rows := []any{[]int{0, 1}, []string{"", "s"}, []any{nil, 2.5}}
+			tpl := `<i v-for="(i, x) in xs" :data-t="x">{{ i }}={{ x }}</i>` +
+				`<b v-for="item in users" v-if="item.Active">{{ item.Name }}</b>` +
+				`<u v-for="item in groups" v-if="item.Active">{{ item.Name }}{{ item.Size }}</u>` +
+				`<s v-for="row in rows"><em v-for="c in row" v-if="c">{{ c }}</em></s>`
+			var buf bytes.Buffer
+			err := eng.New().Fill(map[string]any{"xs": xs, "users": users, "groups": groups, "rows": rows}).RenderString(context.Background(), &buf, tpl)
+			out := buf.String()
+			var got []string
+			for _, m := range regexp.MustCompile(`<i[^>]*>([^<]*)</i>`).FindAllStringSubmatch(out, -1) {
+				got = append(got, stdhtmlUnescape(m[1]))
+			}
+			rest := regexp.MustCompile(`<i[^>]*>[^<]*</i>\s*`).ReplaceAllString(out, "")
+			rest = strings.Join(strings.Fields(rest), "")
+			wantRest := "<b>ann</b><b>cy</b><u>dev5</u><s><em>1</em></s><s><em>s</em></s><s><em>2.5</em></s>"
+			r.Eval(fmt.Sprintf("mixed-items:%d:%d", c, round), true, nil)
+			r.Count("stream:mixed-items(oracle only)")
+			if err != nil || strings.Join(got, ",") != strings.Join(want, ",") || rest != wantRest {
+				r.Fail("a loop over items of different Go types does not bind each item as it is", map[string]string{"oracle": "mixed-items", "kind": "oracle"},
+					map[string]any{"template": tpl, "xs": fmt.Sprintf("%#v", xs), "expected_items": want, "got_items": got, "expected_rest": wantRest, "got_rest": rest, "err": fmt.Sprint(err), "round": round})
+				break
+			}
+		}
+	}
+}
+
 func runC04(r *Run) {
 	c04StructRoot(r)
 	c04NilItems(r)
+	c04MixedItems(r)
 	r.Imports = []string{"Base.Val", "Model.Stack", "Model.Loops", "Model.ForHead"}
 	c04Heads(r)
 	r.Rule("loop nests up to depth 3 over slices and arrays of every element kind ([]any, []int, []string, [2]string and [3]int including all-zero arrays, [][]any, []map, []*S1 with nil members, []S1), lengths 0..3, nil, missing and non-sequence collections, " +
